@@ -46,7 +46,11 @@ func genWorkload(t *rapid.T, cfg wlCfg) *Workload {
 	case 6, 7, 8:
 		n = rapid.IntRange(13, 60).Draw(t, "n")
 	default:
-		n = rapid.IntRange(61, cfg.maxRecs).Draw(t, "n")
+		lo := 61
+		if cfg.maxRecs < lo {
+			lo = cfg.maxRecs / 2
+		}
+		n = rapid.IntRange(lo, cfg.maxRecs).Draw(t, "n")
 	}
 	if n > cfg.maxRecs {
 		n = cfg.maxRecs
